@@ -289,7 +289,7 @@ PROPS = {
     'C14': _kan_props(['KVerif.Props.C14'],
         'simple single-layer configurations (plain keys, output chords, multi, use-defsrc, reserved no-op keys; one in four with global overrides, whose table the harness reads from the configuration text) and whole-grammar configurations on 1-4 layers (tap-hold, tap-dance, one-shot, fork, switch, chords v1, unmod/unshift, virtual keys), keys held while OS repeat events are injected after any event; the key-output table recomputed by the model from the serialised actions is compared with the table the real parser built; non-trivial = a repeat event was injected while a key was down and the output changed at least twice; oracle on the implementation trace: at most one event per repeat, only for a key that is down at the OS, and on simple configurations a repeat for the last-listed output that is down',
         'C14o', None, lambda case, impl: ' rp ' in case and impl.count('@') >= 2),
-    'C05': _lay_props(['KVerif.Props.C05'],
+    'C05': _lay_props(['KVerif.Props.C05', 'KVerif.Props.C05multi'],
         'lone tap-hold key: 7 variants x T in {2,5,200} x concurrent on/off x tap-repress window {0,3} x hold durations {0,1,T-2..T+2}; exhaustive physically consistent schedules (<= N events) over the tap-hold key and two plain keys with gaps {0,1,T-1,T,T+1}; random interleavings of two tap-hold keys with plain keys incl. bursts; non-trivial = output changed at least twice; distinct = distinct case line. Oracle on the implementation trace: exactly one tap/hold/timeout marker effect per press, decision kind and tick for a lone key (closed form), plain keys output in press order',
         'C05o'),
     'C17': _lay_props(['KVerif.Props.C17'],
@@ -333,6 +333,14 @@ PROPS['C04']['determined'] = _c04_observable
 PROPS['C04']['determined_what'] = 'the order in which the key list sent to the OS changes, and whether the layer table the parser built is the one the configuration spells out'
 PROPS['C04']['norm_impl'] = _norm_crash
 PROPS['C04']['norm_model'] = _norm_crash
+def _cfg_text(case):
+    t = case.split(' ', 3)
+    try:
+        return bytes.fromhex(t[2]).decode()
+    except Exception:
+        return ''
+
+
 def _c14_free_oracle(case, impl):
     """repeat clause on the implementation's trace alone (configurations outside the kanata-level
     model, e.g. sequence mode): at most one event per OS repeat, and only for a key that is down"""
@@ -340,6 +348,13 @@ def _c14_free_oracle(case, impl):
         return None
     down = set()
     toks = impl.split(' :: TRACE ')[1].split(' ')
+    # crafted families say which output a repeat of a physical key stands for:
+    # `;; repeat-expect <physical key> <output key>` in the configuration text
+    expect = {}
+    for m in re.finditer(r';; repeat-expect (\d+) (\d+)', _cfg_text(case)):
+        expect.setdefault(m.group(1), set()).add(m.group(2))
+    rep_keys = re.findall(r' rp (\d+)', case.split(' HIST ')[1]) if ' HIST ' in case else []
+    rep_i = 0
     i = 0
     while i < len(toks):
         t = toks[i]
@@ -354,6 +369,12 @@ def _c14_free_oracle(case, impl):
                 j += 1
             if is_rep:
                 em = [e for e in evs if e != '-']
+                pk = rep_keys[rep_i] if rep_i < len(rep_keys) else None
+                rep_i += 1
+                want = sorted(o for o in expect.get(pk, ()) if o in down)
+                if want and not em:
+                    return (f'fail repeat at {t[1:-1]} of key {pk} dropped although its output '
+                            f'{",".join(want)} is down at the OS')
                 if len(em) > 1:
                     return f'fail repeat at {t[1:-1]} emitted {len(em)} events'
                 for e in em:
